@@ -119,9 +119,9 @@ def unit_safe_fast(ctx):
             # word-array functions
             nmax = 17 if ctx.tier == "quick" else 21
             for n in range(0 if fn.startswith("ww") or fn.startswith("zzIs") else 1, nmax):
-                reps = 6 if ctx.tier == "quick" else 20
+                reps = 14 if ctx.tier == "quick" else 42
                 for rep in range(reps):
-                    cls = ["equal", "diff-lo", "diff-hi", "random", "boundary", "kmod"][rep % 6]
+                    cls = ["equal", "diff-lo", "diff-hi", "random", "boundary", "kmod", "carry"][rep % 7]
                     a = rng.getrandbits(n * B) if n else 0
                     b = a
                     if cls == "diff-lo" and n:
@@ -133,6 +133,11 @@ def unit_safe_fast(ctx):
                     elif cls == "boundary":
                         a = rng.choice([0, (1 << (n * B)) - 1, 1]) if n else 0
                         b = rng.choice([0, (1 << (n * B)) - 1, a]) if n else 0
+                    elif cls == "carry" and n:
+                        # carry chains: words of a are WORD_MAX / 0 / random, words of b are 1 / 0 / WORD_MAX / random, so that a
+                        # word equal to WORD_MAX receives a carry, a carry dies, a carry leaves the top word
+                        a = sum(rng.choice([Bm, Bm, 0, rng.getrandbits(B)]) << (i * B) for i in range(n))
+                        b = sum(rng.choice([1, 0, Bm, rng.getrandbits(B)]) << (i * B) for i in range(n))
                     w = rng.choice([0, 1, Bm, a & Bm, rng.getrandbits(B)])
                     if n:
                         mod = rng.getrandbits(n * B) | (1 << (n * B - 1)) | 1
@@ -169,11 +174,11 @@ def unit_safe_fast(ctx):
                         # header: "in the empty word (n == 0) the value 0 is repeated"
                         want = int(aa == int.from_bytes(w.to_bytes(W, "little") * n, "little")) if n else int(w == 0)
                     elif fn == "zzIsSumEq":
-                        c = (a + b) % (1 << (n * B)) if cls in ("equal", "boundary", "diff-lo") and (a + b) < (1 << (n * B)) else rng.getrandbits(n * B) if n else 0
+                        c = (a + b) % (1 << (n * B)) if (cls in ("equal", "boundary", "diff-lo") and (a + b) < (1 << (n * B))) or cls == "carry" else rng.getrandbits(n * B) if n else 0
                         r = [int(bool(f(lib.mkw(c, n), lib.mkw(a, n), lib.mkw(b, n), n))) for f in (lib.zzIsSumEq, lib.zzIsSumEq_fast)]
                         want = int(c == a + b)
                     elif fn == "zzIsSumWEq":
-                        bb = (a + w) if (cls != "random" and a + w < (1 << (n * B))) else b
+                        bb = (a + w) % (1 << (n * B)) if (cls == "carry" and n) else (a + w) if (cls != "random" and a + w < (1 << (n * B))) else b
                         r = [int(bool(f(lib.mkw(bb, n), lib.mkw(a, n), n, w))) for f in (lib.zzIsSumWEq, lib.zzIsSumWEq_fast)]
                         want = int(bb == a + w)
                     elif fn in ("zzAddMod", "zzSubMod"):
